@@ -725,6 +725,8 @@ def check_case(ctx, case, reads, stratum="program"):
         for k, n in enumerate(list(h)):
             if k % 3 == 1:
                 h[n].metadata["written-after-export"] = k
+            elif k % 3 == 2 and k % 2:
+                h[n].metadata = {"replaced-as-a-whole": k}     # (the record itself exchanged, not edited)
         h.add_node(ops.FuncDecl("declared.after.export", tys.PolyFuncType([], tys.FunctionType([tys.Bool], []))),
                    h.root, metadata={"late": True})
         check_export(ctx, h, case, stratum, reads)
